@@ -2,8 +2,11 @@
 # tools/extra_passes.sh <Cxx>   (thorough tier only; called by ./check before the main run)
 # (1) plain-release pass: the quick workload again without overflow checks / debug assertions (what downstream users
 #     build) — verdicts can differ between the two profiles;
-# (2) AddressSanitizer pass for the properties whose workloads reach the raw-pointer seed / generator code
-#     (C01, C14, C15, C16): quick workload at reduced scale in an ASan build.
+# (2) AddressSanitizer pass: quick workload at reduced scale in an ASan build, for every property except C17 (which has
+#     its own ThreadSanitizer and Miri passes). The library's unsafe blocks sit in encryptor/rlwe/text (seed storage and
+#     expansion), evaluator (BFV multiply, key switching), key.rs, app/lwe.rs (packing), context.rs (chain links),
+#     random_generator.rs and hash.rs; every property's workload drives some of them. Validated with
+#     mutants/c01_seed_guard_off_by_one.diff (8-byte heap overflow when storing a seed): ASan reports it.
 # Prints VIOLATION lines of the sub-runs (re-labelled) and a one-line JSON summary on the last line (for the evidence).
 set -u
 id="${1^^}"; VD="$(cd "$(dirname "$0")/.." && pwd)"
@@ -19,7 +22,7 @@ if CARGO_TARGET_DIR="$VD/target" cargo build --profile relplain --offline --mani
   summary="\"plain_release\":{\"exit\":$code,\"${evals/=/\":}}"
 else summary="\"plain_release\":{\"exit\":\"build_failed\"}"; fi
 # ---- (2) AddressSanitizer
-case "$id" in C01|C14|C15|C16)
+case "$id" in C17) ;; *)
   if RUSTFLAGS="-Zsanitizer=address -Cforce-frame-pointers=yes" CARGO_TARGET_DIR="$VD/target-asan" cargo +nightly build --target x86_64-unknown-linux-gnu --release --offline --manifest-path "$VD/harness/Cargo.toml" >"$VD/target/.build-asan.log" 2>&1; then
     mkdir -p "$VD/target-asan/out" "$VD/target-asan/logs"; rm -f "$VD/target-asan/logs/"*; cp "$VD/known_findings.json" "$VD/target-asan/out/" 2>/dev/null
     out=$(ASAN_OPTIONS="detect_leaks=0 halt_on_error=1 abort_on_error=0 log_path=$VD/target-asan/logs/asan" VERIF_DIR="$VD/target-asan/out" VERIF_SCALE="${ASAN_SCALE:-0.15}" "$VD/target-asan/x86_64-unknown-linux-gnu/release/hv" "$id" --tier quick 2>&1); code=$?
